@@ -243,6 +243,12 @@ def gen_transfer():
     L.append("/-- `ThrottleStreamIO.iter_by_block(count)` / `AsyncPathIOContext.iter_by_block(count)` return expressions -/")
     L.append("def streamIterByBlock : String := %s" % lean_str(iter_by_block_expr(ct, "ThrottleStreamIO")))
     L.append("def fileIterByBlock : String := %s" % lean_str(iter_by_block_expr(pt, "AsyncPathIOContext")))
+    # what closing a stream does: the writer's own close() flushes what is buffered before the socket goes; anything
+    # else here (abort(), a transport call, a condition) decides whether the tail of a download arrives
+    close_fn = _find_func(ct, "StreamIO.close")
+    body = [x for x in close_fn.body if not (isinstance(x, ast.Expr) and isinstance(x.value, ast.Constant) and isinstance(x.value.value, str))]
+    L.append("/-- the statements of `StreamIO.close` (docstring dropped) -/")
+    L.append("def streamCloseBody : List String := %s" % lean_list([lean_str(l) for x in body for l in ast.unparse(x).splitlines()], 1))
     L.append("")
     L.append("end Transfer")
     L.append("end Generated")
